@@ -1351,3 +1351,228 @@ func c01R2decl(ic *IC, r *Report) {
 		r.Errorf("R01.2: no run-time closure found in the generator of value specifications")
 	}
 }
+
+func init() {
+	ruleText["R01.21"] = "the decision to create the variable(s) of a short variable declaration consults nothing but the statement itself: no condition guarding the allocation slot = reflect.New(T).Elem() in the generators of := (generation-time cases and flags included) calls an in-package analysis of the surrounding code (is the statement in a loop, does the variable escape): a := executed again through a backward goto, or in a body whose variable is captured implicitly, creates a new variable each time"
+}
+
+// c01R21: the conditions (run-time and generation-time, boolean locals resolved to their
+// definition) under which the generators of := allocate the new variable call no in-package
+// function (isBlank excepted). Round-5 seed: `fresh := n.kind == defineXStmt && inLoop(n)`.
+func c01R21(ic *IC, r *Report) {
+	info := ic.Info
+	defConsts := map[types.Object]bool{}
+	for _, n := range []string{"defineStmt", "defineXStmt"} {
+		if o := ic.Pk.Types.Scope().Lookup(n); o != nil {
+			defConsts[o] = true
+		}
+	}
+	isFresh := func(as *ast.AssignStmt) bool {
+		if len(as.Lhs) != 1 || len(as.Rhs) != 1 {
+			return false
+		}
+		if _, ok := unparen(as.Lhs[0]).(*ast.IndexExpr); !ok {
+			return false
+		}
+		call, ok := unparen(as.Rhs[0]).(*ast.CallExpr)
+		if !ok || !isCallTo(info, call, "reflect.Value.Elem") {
+			return false
+		}
+		se, ok := unparen(call.Fun).(*ast.SelectorExpr)
+		if !ok {
+			return false
+		}
+		inner, ok := unparen(se.X).(*ast.CallExpr)
+		return ok && isCallTo(info, inner, "reflect.New")
+	}
+	n := 0
+	for _, name := range sortedKeys(ic.F) {
+		fi := ic.F[name]
+		if fi.Decl.Body == nil || fi.Decl.Recv != nil {
+			continue
+		}
+		// generators of := : functions func(*node) mentioning defineStmt/defineXStmt in a condition
+		mentionsDefine := false
+		ast.Inspect(fi.Decl.Body, func(m ast.Node) bool {
+			if be, ok := m.(*ast.BinaryExpr); ok && (be.Op == token.EQL || be.Op == token.NEQ) {
+				if id := identOf(be.Y); id != nil && defConsts[info.Uses[id]] {
+					mentionsDefine = true
+				}
+			}
+			return true
+		})
+		sig := fi.Obj.Type().(*types.Signature)
+		if !mentionsDefine || sig.Params().Len() != 1 || !isNamedPtr(sig.Params().At(0).Type(), "node") || sig.Results().Len() != 0 {
+			continue
+		}
+		k := 0
+		ast.Inspect(fi.Decl.Body, func(m ast.Node) bool {
+			as, ok := m.(*ast.AssignStmt)
+			if !ok || !isFresh(as) {
+				return true
+			}
+			path := enclosingPath(fi.Decl.Body, as)
+			inClosure := false
+			for _, p := range path {
+				if fl, ok := p.(*ast.FuncLit); ok && isFrameClosure(info, fl) {
+					inClosure = true
+				}
+			}
+			if !inClosure {
+				return true
+			}
+			k++
+			n++
+			var conds []ast.Expr
+			for _, p := range path {
+				switch x := p.(type) {
+				case *ast.IfStmt:
+					conds = append(conds, x.Cond)
+				case *ast.CaseClause:
+					conds = append(conds, x.List...)
+				}
+			}
+			// resolve boolean locals (single definition) one level, twice
+			for round := 0; round < 2; round++ {
+				var more []ast.Expr
+				for _, c := range conds {
+					ast.Inspect(c, func(q ast.Node) bool {
+						id, ok := q.(*ast.Ident)
+						if !ok {
+							return true
+						}
+						v, ok := info.Uses[id].(*types.Var)
+						if !ok || v.IsField() || !types.Identical(v.Type(), types.Typ[types.Bool]) {
+							return true
+						}
+						ast.Inspect(fi.Decl.Body, func(d ast.Node) bool {
+							if das, ok := d.(*ast.AssignStmt); ok && len(das.Lhs) == len(das.Rhs) {
+								for i, l := range das.Lhs {
+									if lid := identOf(l); lid != nil && info.ObjectOf(lid) == v {
+										more = append(more, das.Rhs[i])
+									}
+								}
+							}
+							return true
+						})
+						return true
+					})
+				}
+				conds = append(conds, more...)
+			}
+			var bad []string
+			seen := map[string]bool{}
+			for _, c := range conds {
+				for _, call := range allCalls(c) {
+					f, ok := calleeOf(info, call).(*types.Func)
+					if !ok || f.Pkg() != ic.Pk.Types || f.Name() == "isBlank" {
+						continue
+					}
+					if sg := f.Type().(*types.Signature); sg.Recv() != nil {
+						continue // accessors of values (v.IsValid(), typ.TypeOf()) are not analyses of the code
+					}
+					d := f.Name() + " in " + types.ExprString(c)
+					if !seen[d] {
+						seen[d] = true
+						bad = append(bad, d+" ("+ic.pos(call.Pos())+")")
+					}
+				}
+			}
+			r.Check(len(bad) == 0, "R01.21", fmt.Sprintf("%s/new-variable#%d/decided-by-the-statement-alone", name, k), ic.pos(as.Pos()), "the allocation is guarded by the statement's own kind and flags only",
+				name+" allocates the variable of a := ("+ic.pos(as.Pos())+") only when "+strings.Join(bad, "; ")+" holds: the Go specification creates the variables at every execution of the declaration, also when it is re-executed by a backward goto or when the variable is captured implicitly (slicing an array, pointer-receiver method); closures and pointers of earlier executions then share one variable")
+			return true
+		})
+	}
+	if n < 3 {
+		r.Errorf("R01.21: only %d allocations of := variables found in the generators", n)
+	}
+}
+
+func init() {
+	ruleText["R01.22"] = "an unlabelled continue branches to the node carrying the copy-back of the per-iteration loop variables: scope.loopRestart is only ever the last child (the body) of the loop node, and the continue case of cfg assigns that node itself to tnext (not its start, not the post statement)"
+}
+
+// c01R22: the body node of a for statement with an init clause carries the generator copying
+// the per-iteration variables back (R01.3); the end of the body and `continue` must both go
+// through it. Round-5 seed: continue wired straight to the post statement.
+func c01R22(ic *IC, r *Report) {
+	info := ic.Info
+	fi := ic.fn(r, "Interpreter.cfg")
+	restart := ic.field("scope", "loopRestart")
+	tnext := ic.field("node", "tnext")
+	if fi == nil || restart == nil || tnext == nil {
+		r.Errorf("R01.22: anchors cfg / scope.loopRestart / node.tnext not resolved")
+		return
+	}
+	nAssign := 0
+	ast.Inspect(fi.Decl.Body, func(m ast.Node) bool {
+		as, ok := m.(*ast.AssignStmt)
+		if !ok || len(as.Lhs) != len(as.Rhs) {
+			return true
+		}
+		for i, l := range as.Lhs {
+			if selField(info, l) != restart {
+				continue
+			}
+			nAssign++
+			ok := false
+			if c, isCall := unparen(as.Rhs[i]).(*ast.CallExpr); isCall {
+				if f, isF := calleeOf(info, c).(*types.Func); isF && f.Name() == "lastChild" && f.Pkg() == ic.Pk.Types {
+					ok = true
+				}
+			}
+			r.Check(ok, "R01.22", fmt.Sprintf("cfg/loop-restart#%d/is-the-body", nAssign), ic.pos(as.Pos()), "continue restarts at the body node, which carries the copy-back",
+				"cfg records "+types.ExprString(as.Rhs[i])+" as the node a continue statement branches to; the per-iteration copies of the loop variables are copied back by the generator of the body node (the loop's last child), which a continue then bypasses: an assignment to the loop variable followed by continue is lost (for i := 0; i < 6; i++ { if i == 1 { i = 3; continue } } runs i = 2)")
+		}
+		return true
+	})
+	if nAssign == 0 {
+		r.Errorf("R01.22: no assignment of scope.loopRestart found in cfg")
+	}
+	// the continue case
+	contC, _ := ic.Pk.Types.Scope().Lookup("continueStmt").(*types.Const)
+	nCont := 0
+	ast.Inspect(fi.Decl.Body, func(m ast.Node) bool {
+		cc, ok := m.(*ast.CaseClause)
+		if !ok {
+			return true
+		}
+		is := false
+		for _, l := range cc.List {
+			if id := identOf(l); id != nil && contC != nil && info.ObjectOf(id) == contC {
+				is = true
+			}
+		}
+		if !is {
+			return true
+		}
+		for _, s := range cc.Body {
+			ast.Inspect(s, func(k ast.Node) bool {
+				as, ok := k.(*ast.AssignStmt)
+				if !ok || len(as.Lhs) != 1 || len(as.Rhs) != 1 || selField(info, as.Lhs[0]) != tnext {
+					return true
+				}
+				// only the assignment reading loopRestart
+				reads := false
+				ast.Inspect(as.Rhs[0], func(q ast.Node) bool {
+					if e, ok := q.(ast.Expr); ok && selField(info, e) == restart {
+						reads = true
+					}
+					return true
+				})
+				if !reads {
+					return true
+				}
+				nCont++
+				exact := selField(info, as.Rhs[0]) == restart
+				r.Check(exact, "R01.22", fmt.Sprintf("cfg/continue#%d/branches-to-the-restart-node-itself", nCont), ic.pos(as.Pos()), "continue executes the restart node (copy-back), then the post statement",
+					"the continue case of cfg branches to "+types.ExprString(as.Rhs[0])+" instead of the restart node itself: the generator of that node (the copy-back of the per-iteration loop variables) is not executed on continue")
+				return true
+			})
+		}
+		return true
+	})
+	if nCont == 0 {
+		r.Errorf("R01.22: the continue case of cfg does not read scope.loopRestart")
+	}
+}
